@@ -65,7 +65,8 @@ class Runner(object):
         self.case = case
         self.cfg = dict(world.DEFAULT_CFG)
         self.cfg.update(case.get('config') or {})
-        if any(f.get('kind') == 'crash' for f in case.get('faults') or []) \
+        if any('crash' in str(f.get('kind')) for f in
+               case.get('faults') or []) \
                 or case.get('handoff_crash') is not None:
             # a crash unwinds the open transaction of the node: no parked
             # transactions then (they share the connection with the others)
@@ -98,7 +99,7 @@ class Runner(object):
         self.res.recorder = rec
         try:
             w.start()
-            m.db_base.tx_lock.commit_count = lambda: len(rec.commits)
+            m.db_base.tx_lock.commit_count = lambda: rec.n_commits_all
             self._load_outcomes()
             self._install_row_order()
             self.setup()
